@@ -4,7 +4,7 @@
 (* from_bytes / to_bytes* and builder sequences are checked against        *)
 (* Wire.tla / Message.tla.                                                 *)
 (***************************************************************************)
-EXTENDS Message, TraceLib
+EXTENDS Message, Registry, TraceLib
 
 VARIABLES l, pkt, tkl, live, bad, done
 vars == << l, pkt, tkl, live, bad, done >>
@@ -71,6 +71,13 @@ TypedOk(e, exp) ==
   /\ LET o == ObserveView(exp) IN
      /\ e.obs.some = o.some
      /\ (o.some => e.obs.ok = o.r.ok /\ (o.r.ok => e.obs.digits = o.r.v))
+  \* get_content_format: the FIRST stored value, as a uint of at most two bytes, if it is a registered id
+  /\ HasField(e, "cf") =>
+       LET vs == ValsOf(exp.opts, 12)
+           r == IF vs = << >> THEN [ok |-> FALSE] ELSE UintDec(vs[1], 2)
+           id == IF r.ok THEN r.v[1] * 256 + r.v[2] ELSE 0
+           known == r.ok /\ NameOf(ContentFormatRows, id) # "-" IN
+       e.cf.some = known /\ (known => e.cf.id = id)
 
 \* The header's token-length nibble is builder state of its own: set_token synchronises it with
 \* the token, set_token_length / replacing the public header field set it directly.  It is written
